@@ -451,14 +451,35 @@ func (a *dictEnumerator) Current() Value {
 
 type DictEnumerator struct {
 	i frozen.MapIterator[Value, any]
+	// j ranges over the values of the current key when it has several.
+	j     frozen.Iterator[Value]
+	value Value
 }
 
 func (a *DictEnumerator) MoveNext() bool {
-	return a.i.Next()
+	if a.j != nil && a.j.Next() {
+		a.value = a.j.Value()
+		return true
+	}
+	a.j = nil
+	if !a.i.Next() {
+		return false
+	}
+	switch entry := a.i.Value().(type) {
+	case multipleValues:
+		a.j = frozen.Set[Value](entry).Range()
+		if !a.j.Next() {
+			return false
+		}
+		a.value = a.j.Value()
+	default:
+		a.value = entry.(Value)
+	}
+	return true
 }
 
 func (a *DictEnumerator) Current() (key, value Value) {
-	return a.i.Key(), a.i.Value().(Value)
+	return a.i.Key(), a.value
 }
 
 type dictEntryTupleSort []DictEntryTuple
